@@ -1,6 +1,7 @@
 package props
 
 import (
+	"strings"
 	"time"
 
 	"verif/harness/internal/mc"
@@ -259,7 +260,11 @@ func init() {
 	registerCheck(&CheckDef{Prop: "C02", Level: "model_checking", Technique: tE1,
 		Quick:       []Run{{Scenario: "qmax-leaf", Depth: 6, MapModes: []int{1}}, {Scenario: "qmax-parent", Depth: 6, MapModes: []int{1}}, {Scenario: "qmax-dynamic", Depth: 6, MapModes: []int{1}}, {Scenario: "gang-sparse-qmax", Depth: 6, MapModes: []int{1}}},
 		Thorough:    []Run{{Scenario: "gang-sparse-qmax", Depth: 9, MapModes: []int{1}}, {Scenario: "qmax-leaf", Depth: 8, MapModes: []int{1, 2}}, {Scenario: "qmax-parent", Depth: 8, MapModes: []int{1, 2}}, {Scenario: "qmax-dynamic", Depth: 8, MapModes: []int{1, 2}}},
-		QuickBudget: 150 * time.Second, ThoroughBudget: 12 * time.Minute})
+		QuickBudget: 150 * time.Second, ThoroughBudget: 12 * time.Minute,
+		// the moment of the decision under concurrency: scheduling cycle || allocation placed by the RM in the same leaf
+		Also: c14Part("C02", "c02ilv", "step-C02-", func(n string) bool {
+			return strings.HasPrefix(n, "S29-") || strings.HasPrefix(n, "S8-") || strings.HasPrefix(n, "S26-")
+		}), Replay: replayC14})
 	registerCheck(&CheckDef{Prop: "C04", Level: "model_checking", Technique: tE1,
 		Quick:       []Run{{Scenario: "si-basic", Depth: 6, MapModes: []int{1}}, {Scenario: "gang-si-Soft", Depth: 6, MapModes: []int{1}}, {Scenario: "gang-si-Hard", Depth: 5, MapModes: []int{1}}, {Scenario: "reserve-si", Depth: 6, MapModes: []int{1}}, {Scenario: "gang-si-same", Depth: 6, MapModes: []int{1}}, {Scenario: "reserve-bind-si", Depth: 6, MapModes: []int{1}}},
 		Thorough:    []Run{{Scenario: "gang-si-same", Depth: 9, MapModes: []int{1}}, {Scenario: "reserve-bind-si", Depth: 9, MapModes: []int{1, 2}}, {Scenario: "si-basic", Depth: 8, MapModes: []int{1, 2}}, {Scenario: "gang-si-Soft", Depth: 8, MapModes: []int{1, 2}}, {Scenario: "gang-si-Hard", Depth: 8, MapModes: []int{1}}, {Scenario: "reserve-si", Depth: 7, MapModes: []int{1}}},
